@@ -6,7 +6,7 @@ import copy
 from sa.loader import AnalysisError, norm, walk_local
 from sa.cfg import cfg_of
 from sa.pathsum import summaries
-from .common import analysis, W_NAMES, tokens, names_in, assigned_values, ifexp_alternatives
+from .common import analysis, W_NAMES, tokens, names_in, assigned_values, ifexp_alternatives, true_facts
 from .c02 import union_selection
 
 PROP = "C09"
@@ -153,9 +153,20 @@ def run(ctx):
     else:
         show = lambda cs: sorted((sorted(c), l) for c, l in cs)
         ctx.check("C09.R1", "writer and validator name union branches by the same function", lw["cases"] == lv["cases"], vu.where(), f"_validate_union label cases: {show(lv['cases'])} vs write_union: {show(lw['cases'])}", "validate() and the writers disagree on which branch a (name, value) hint selects: data the writer encodes is rejected by validate (or vice versa)")
-        rg = lambda g, f_, dpos: {x.replace(f_.pos_params[dpos], "DATUM") for x in g}
-        gw = {re.sub(r"\b" + wu.pos_params[5] + r"\b", "OPTIONS", x) for x in rg(lw["guards"], wu, 1)}
-        gv = {re.sub(r"\boptions\b", "OPTIONS", x) for x in rg(lv["guards"], vu, 0)}
+        def hint_guard(f_, dpos, opt_name):
+            """every condition that dominates the unpacking of the (name, value) pair, datum and options by role"""
+            cfg_ = cfg_of(f_)
+            dn = f_.pos_params[dpos]
+            out = None
+            for n in walk_local(f_.node):
+                if isinstance(n, ast.Assign) and isinstance(n.targets[0], ast.Tuple) and len(n.targets[0].elts) == 2 and isinstance(n.value, ast.Name) and n.value.id == dn:
+                    facts = true_facts(cfg_, cfg_.node_of(n))
+                    facts = {re.sub(r"\b" + re.escape(opt_name) + r"\b", "OPTIONS", re.sub(r"\b" + re.escape(dn) + r"\b", "DATUM", x)) for x in facts}
+                    out = facts if out is None else (out | facts)
+            return out if out is not None else set()
+
+        gw = hint_guard(wu, 1, wu.pos_params[5])
+        gv = hint_guard(vu, 0, "options")
         ctx.check("C09.R1", "tuple notation is enabled by the same guard on both sides", gw == gv, vu.where(), f"validator guard `{sorted(gv)}` vs writer guard `{sorted(gw)}`", "tuple notation is recognised under different conditions by the writer and by validate")
         # after the hint matched, the *selected candidate* is what gets validated and that verdict is the result
         rets = [s for s in lv["matched"] if s.kind == "return"]
